@@ -82,7 +82,7 @@ public:
                "distinct = distinct (plan shape hash, signature of final state)";
     }
     std::vector<std::pair<std::string, s64>> simplest_knobs() const override {
-        return {{"bt_en", 0},  {"bt_words", 0}, {"h0act", 0}, {"h1act", 0}, {"h2act", 0}, {"h3act", 0}, {"env", 0},
+        return {{"bt1_en", 0}, {"bt1_words", 0}, {"bt_en", 0},  {"bt_words", 0}, {"h0act", 0}, {"h1act", 0}, {"h2act", 0}, {"h3act", 0}, {"env", 0},
                 {"en2", 0},    {"en1", 0},      {"t1cfg", 0}, {"t1start", 0}, {"busy", 0}, {"reenter", 0}, {"user_mem", 0},
                 {"vctx", 0},   {"main", 0}};
     }
@@ -105,7 +105,7 @@ public:
         if (r.chance(1, 12))
             mod3 &= ~0x80; // interrupts globally off: pure skipping
         p.set_knob("mod3", mod3);
-        const u16 irqs[4] = {1 << 9, 1 << 10, 1 << 11, 1 << 14};
+        const u16 irqs[5] = {1 << 9, 1 << 10, 1 << 11, 1 << 12, 1 << 14};
         u16 en[3] = {0, 0, 0}, env = 0;
         for (u16 bit : irqs) {
             int where = (int)r.below(6); // 0..2 line, 3 vectored, 4 two places, 5 nowhere
@@ -140,6 +140,9 @@ public:
         bool bt = r.chance(1, 2);
         p.set_knob("bt_en", bt);
         p.set_knob("bt_words", bt ? (s64)r.below(19) : (s64)(r.chance(1, 4) ? r.below(5) : 0));
+        bool bt1 = r.chance(1, 3);
+        p.set_knob("bt1_en", bt1);
+        p.set_knob("bt1_words", bt1 ? (s64)r.below(19) : 0);
         p.set_knob("busy", (s64)r.below(7));
         p.set_knob("main", (s64)(r.chance(1, 8) ? 1 : r.chance(1, 5) ? 2 : 0));
         for (int h = 0; h < 4; ++h) {
